@@ -23,6 +23,7 @@ An idiom that cannot be brought into these normal forms raises AnalysisError (ex
 from __future__ import annotations
 
 import ast
+import dataclasses
 import copy
 import itertools
 import math
@@ -722,8 +723,14 @@ class DictBuilder:
         if len(f) > 2:
             f = [frozenset([(unparse(test), False)])]
         alias: Optional[Tuple[Any, ast.AST]] = None
-        if isinstance(test, ast.Compare) and len(test.ops) == 1 and isinstance(test.ops[0], ast.Eq):
-            l, r = test.left, test.comparators[0]
+        alias_in_body = True  # the branch in which `<loop variable> == <literal>` holds
+        core = test
+        while isinstance(core, ast.UnaryOp) and isinstance(core.op, ast.Not):
+            core, alias_in_body = core.operand, not alias_in_body
+        if isinstance(core, ast.Compare) and len(core.ops) == 1 and isinstance(core.ops[0], (ast.Eq, ast.NotEq)):
+            if isinstance(core.ops[0], ast.NotEq):
+                alias_in_body = not alias_in_body
+            l, r = core.left, core.comparators[0]
             if isinstance(l, ast.Constant):
                 l, r = r, l
             if isinstance(r, ast.Constant) and any(isinstance(n, ast.Name) and is_pseudo(n.id) for n in ast.walk(l)):
@@ -749,8 +756,8 @@ class DictBuilder:
                 del self.ambient[amb:]
             return term
 
-        bt = branch(t, s.body, True)
-        et = branch(f, s.orelse, False)
+        bt = branch(t, s.body, alias_in_body)
+        et = branch(f, s.orelse, not alias_in_body)
         if bt and et and s.orelse:
             return True
 
@@ -1685,6 +1692,10 @@ class ObsClassModel:
             is_default = isinstance(o.stmt, ast.Return) and o.stmt.value is not None and unparse(o.stmt.value) == "self.default_observation"
             t = Tree()
             self.observe_b._store(t, (), o.val, EMPTY, False)
+            # conditions under which this very return executes hold for everything it returns: an `else:` arm and a guard
+            # clause followed by the same statements are the same view
+            if o.conds:
+                t.events = [dataclasses.replace(e, conds=frozenset(e.conds - o.conds)) if (e.conds & o.conds) else e for e in t.events]
             out.append((o, t, is_default))
         return out
 
